@@ -10,17 +10,20 @@ Local Open Scope R_scope.
 Lemma q_kelvin : Q2R (5463 # 20) = 27315 / 100.
 Proof. unfold Q2R. cbn [Qnum Qden]. lra. Qed.
 
-Lemma apod_as_config_spec a : apod_as_config R_ops a = apod_spec a.
-Proof. destruct a; cbn [apod_as_config apod_spec]; try reflexivity. rewrite u_micro_R. reflexivity. Qed.
-
-Theorem as_config_matches_spec U s : as_config R_ops U s = as_config_spec export_rounds_idler_waist_position U s.
+Lemma apod_as_config_spec a : apod_as_config R_ops a = apod_spec export_rounds_gaussian_fwhm a.
 Proof.
-  unfold as_config, as_config_spec, crystal_as_config, poling_as_config, beam_spec, celsius_of_kelvin, export_rounds_idler_waist_position.
-  rewrite !sigfigs_R, ?u_deg_R, ?u_micro_R, ?u_nano_R, ?u_pico_R.
-  cbn [ndiv nsub nQ R_ops]. rewrite q_kelvin.
-  destruct (s_pp s) as [| period sg a].
-  - reflexivity.
-  - rewrite !sigfigs_R, ?u_micro_R, apod_as_config_spec. reflexivity.
+  destruct a; cbn [apod_as_config apod_spec]; try reflexivity.
+  unfold export_rounds_gaussian_fwhm. rewrite ?sigfigs_R, u_micro_R. reflexivity.
+Qed.
+
+Lemma poling_as_config_spec pp : poling_as_config R_ops pp = poling_spec export_rounds_gaussian_fwhm pp.
+Proof. destruct pp; cbn [poling_as_config poling_spec]; [reflexivity |]. rewrite sigfigs_R, u_micro_R, apod_as_config_spec. reflexivity. Qed.
+
+Theorem as_config_matches_spec U s : as_config R_ops U s = as_config_spec export_rounds_idler_waist_position export_rounds_gaussian_fwhm U s.
+Proof.
+  unfold as_config, as_config_spec, crystal_as_config, beam_spec, celsius_of_kelvin, export_rounds_idler_waist_position.
+  rewrite !sigfigs_R, ?u_deg_R, ?u_micro_R, ?u_nano_R, ?u_pico_R, poling_as_config_spec.
+  cbn [ndiv nsub nQ R_ops]. rewrite q_kelvin. reflexivity.
 Qed.
 
 Definition close4 (x y : R) : Prop := Rabs (x - y) <= / 20000.
@@ -57,7 +60,7 @@ Theorem roundtrip_within U s :
               exists z, bc_waist_pos_um ic = Param z /\ close4 z (s_zi s / micro)) /\
   match s_pp s with
   | PolOff => c_pp c = PCOff
-  | PolOn period _ a => exists p, c_pp c = PCConfig (Param p) (apod_spec a) /\ close4 p (period / micro)
+  | PolOn period _ a => exists p, c_pp c = PCConfig (Param p) (apod_spec export_rounds_gaussian_fwhm a) /\ close4 p (period / micro)
   end /\
   close4 (c_deff c) (s_deff s / (pico / u_volt U)).
 Proof.
@@ -76,7 +79,7 @@ Proof.
   | |- exists ic, Param _ = Param ic /\ _ => eexists; split; [reflexivity |]
   | |- _ => progress cbn [bc_wavelength_nm bc_phi_deg bc_theta_deg bc_theta_ext_deg bc_waist_um bc_waist_pos_um]
   end.
-  destruct (s_pp s); [reflexivity |]. eexists; split; [reflexivity | apply close4_round].
+  unfold poling_spec. destruct (s_pp s); [reflexivity |]. eexists; split; [reflexivity | apply close4_round].
 Qed.
 
 (* ------------------------------------------------------------------------------------------------------------------
@@ -163,7 +166,7 @@ Definition beam_cfg_dec4 (c : beam_cfg R) : Prop :=
   dec4 (bc_wavelength_nm c) /\ dec4 (bc_phi_deg c) /\ (forall t, bc_theta_deg c = Some t -> dec4 t) /\ dec4 (bc_waist_um c) /\
   (forall z, bc_waist_pos_um c = Param z -> dec4 z).
 
-Theorem as_config_now_unit_table U s : as_config R_ops U s = as_config_spec true U s.
+Theorem as_config_now_unit_table U s : as_config R_ops U s = as_config_spec true export_rounds_gaussian_fwhm U s.
 Proof. exact (as_config_matches_spec U s). Qed.
 
 Theorem exported_numbers_four_decimals U s :
@@ -187,5 +190,5 @@ Proof.
   - intros ic H. inversion H. subst ic.
     cbn [bc_wavelength_nm bc_phi_deg bc_theta_deg bc_waist_um bc_waist_pos_um].
     repeat split; try apply dec4_round4; intros ? H0; inversion H0; subst; apply dec4_round4.
-  - intros p a. destruct (s_pp s); [discriminate |]. intros H. inversion H. subst. apply dec4_round4.
+  - intros p a. unfold poling_spec. destruct (s_pp s); [discriminate |]. intros H. inversion H. subst. apply dec4_round4.
 Qed.
